@@ -2,7 +2,7 @@ claim(
     "C12",
     "exhaustive differential test of stock predicates against an arithmetic reference + differential stream monitor (constrained vs unconstrained selector) on generated loop programs",
     "Part A enumerates every integer argument combination in a bounded box and compares each stock predicate with the arithmetic definition in the property; Part B runs generated nested-loop programs under constrained selectors and checks the delivered stream equals the unconstrained stream filtered by the reference predicate, and that overrides apply under the same condition. Held-on-observed only.",
-    "Trusts: CPython integer arithmetic; that the unconstrained selector's stream is correct (that is C02/C03's job); throttle is only checked for plumbing.",
+    "Trusts: CPython integer arithmetic; that the unconstrained selector's stream is correct (that is C02/C03's job); throttle is compared with a harness-side model of the stateful predicate (RefThrottle), not with ptera's own class.",
 )
 claim(
     "C15",
@@ -38,31 +38,31 @@ claim(
     "C09",
     "history monitor: driver histories over instrumented generators with the handler collection compared after every step against a no-leak model, and per-call event expectations for the driver's own calls",
     "Seeded random histories (<=10/16 ops: overlays entered/left, generators created, advanced, sent to, closed, dropped+gc, zipped, exhausted, in LIFO and non-LIFO completion orders, driver at top level or inside an instrumented outer()) are run against the real code; after every step HandlerCollection.current must equal the model's handler list by identity, and each driver call of g must fire exactly the selectors that do not require the generator as ancestor. Held-on-observed.",
-    "Events of the generators' own inner calls are not asserted; overlays are entered/left LIFO by the driver; the generator family uses plain `yield`, `yield from` a sub-generator and `yield from` a plain iterator.",
+    "Events of the generators' own inner calls are not asserted; overlays are entered/left LIFO by the driver; the generator family uses plain `yield`, `yield from` a sub-generator (which answers a thrown ValueError with a value; histories throw into generators) and `yield from` a plain iterator.",
 )
 claim(
     "C17",
     "history monitor with completion counters: every pipeline stage subscribed through on_next/on_completed/on_error counters and compared after every step with a reference computed from the events delivered during the active period",
     "Seeded random histories (<=14/22 ops over two probes: attach 12 kinds of reducing / non-reducing stages before, during and after activation, activate via with/global/child, calls inside and outside the active period, deactivate normally/by exception/explicitly, re-activation attempts through root and child) against the real giving/ptera pipeline; exactly-once completion, silence outside the active period, late-attachment cut-off, and 'refused re-activation changes nothing' are asserted after every step. Held-on-observed.",
-    "Event reference hand-derived for a 5-line program; reductions over an empty period only required to terminate once; double deactivation not generated.",
+    "Event reference hand-derived for a 5-line program; reductions over an empty period only required to terminate once; double deactivation not generated; failing result handlers raise RuntimeError or a BaseException subclass.",
 )
 claim(
     "C14",
     "history monitor over generated modules: reference resolution and by-name/by-reference stream equality checked after every step against a shadow of the active set",
     "Generated modules with every placement (module level, methods, nested classes, static methods, factory closures 1-2 deep, decorated functions/methods) x random histories of activate-by-name / activate-by-reference / deactivate in any order / call / resolve; select(refstring(fn)) must be the very function and streams by reference must equal streams by name, before, during and after probing. Held-on-observed.",
-    "One closure per factory; references of decorated functions denote the undecorated def.",
+    "One closure per factory; references of decorated functions denote the undecorated def; placements include functions tooled in place (decorator and call form).",
 )
 claim(
     "C13",
     "differential monitor: events (value, id(receiver)) of class-form and object-form method selectors vs an identity-based reference over random populations and call sequences",
     "Seeded random populations (plain / value-equal / unhashable / list and dict subclasses / inheriting / overriding / decorated / property classes, with equal-but-distinct twins) x selectors through class, object, dotted path, decorator and property x random call sequences incl. a namesake module-level function; each selector's stream must be exactly the calls executing that function (class form) or whose receiver IS the object (object form, receiver reported). Held-on-observed.",
-    "Unique call arguments identify calls; properties are selected through the class.",
+    "Unique call arguments identify calls; properties are selected through the class; a hand-written battery covers two receiver conditions side by side under one call (all ordered pairs of three instances).",
 )
 claim(
     "C01",
     "differential execution monitor: generated programs run untouched vs under each instrumentation configuration, comparing result / exception / generator protocol trace / ordered side-effect log / argument, global and closure-cell state; plus an InteractLog monitor on Interactor.interact",
     "Seeded random exploration of (program, input, configuration) triples from a generator covering every statement form in the quantifier (67 feature flags incl. non-indexable and one-shot iterables, starred/nested targets, side-effecting sub-expressions, generators driven by next/send/throw/close/drop scripts, closures with nonlocal writes) under tooled / tooled.inplace / 1-3 non-overriding probes over variable subsets (all subsets for <=5 names in the thorough tier) / raw overlays / after deactivation. Held-on-observed.",
-    "Plain and twin renderings are cross-checked for equal outcomes by the generator's self-test; exception messages and function reprs are normalised; bare annotations and globals rebound during the call are excluded (documented exceptions).",
+    "Plain and twin renderings are cross-checked for equal outcomes by the generator's self-test; exception messages and function reprs are normalised; bare annotations and globals rebound during the call are excluded (documented exceptions); a global read only by a nested function and rebound after the call is the known finding global-read-by-nested-function-snapshotted-at-entry (own finding stream).",
 )
 claim(
     "C02",
